@@ -620,6 +620,9 @@ def gen_mesh(parts, vec_views):
     m2, e2, c2 = branch(iff[0].orelse, True)
     out.append("Definition copy_mode_with_attributes : cmode := %s." % m1)
     out.append("Definition copy_mode_data_only : cmode := %s." % m2)
+    out.append("(* the attributes live in the containers: deep-copying a whole container (first branch) takes them along as\n"
+               "   values of the copy, copying only `_data` / `_elem` / `_adj` (second branch) leaves the copy without any *)")
+    out.append("Definition copy_keeps_attributes (attr : bool) : bool := if attr then true else false.")
 
     def table(d, n):
         return "match k with " + " | ".join("%d%%nat => %d%%nat" % (k, d[k]) for k in range(n - 1)) + " | _ => %d%%nat end" % d[n - 1]
@@ -816,6 +819,48 @@ def gen_ring(parts, vec_views):
     return out
 
 
+BORD = "mouette/processing/border.py"
+PATHS = "mouette/processing/paths.py"
+TREES = {2: ("mouette/processing/trees/edge_sp.py", "EdgeSpanningTree.build_tree_as_polyline"),
+         3: ("mouette/processing/trees/face_sp.py", "FaceSpanningTree.build_tree_as_polyline"),
+         4: ("mouette/processing/trees/cell_sp.py", "CellSpanningTree.build_tree_as_polyline")}
+
+
+def gen_appenders(parts, vec_views):
+    """exporters that fill a PolyLine() directly (no prepare()): how each appended vertex relates to the vector it comes from"""
+    modes = {}
+
+    def appends(rel, qual, cont, bases):
+        src, tree = T.load(rel)
+        fn = T.find_def(tree, qual, rel)
+        parts.append((qual, T.sha(src, fn)))
+        loopvars = set()
+        for n in ast.walk(fn):      # `for v in self.mesh.vertices:` makes v one of the mesh's vectors
+            if isinstance(n, ast.For) and isinstance(n.target, ast.Name) and T.dotted(n.iter) in bases:
+                loopvars.add(n.target.id)
+        found = []
+        for n in ast.walk(fn):
+            if isinstance(n, ast.Call) and T.dotted(n.func) == cont + ".vertices.append" and len(n.args) == 1:
+                found.append(classify(rel, n.args[0], bases | loopvars, vec_views))
+            if isinstance(n, ast.AugAssign) and T.dotted(n.target) == cont + ".vertices":
+                T.fail(rel, n, "vertices extended by += in an exporter that is modelled append by append")
+        if not found:
+            T.fail(rel, fn, "no vertex append found in " + qual)
+        if len(set(found)) != 1:
+            T.fail(rel, fn, "the vertex appends of %s do not agree" % qual)
+        return found[0]
+    modes[0] = appends(BORD, "extract_boundary_of_surface", "bound", {"mesh.vertices"})
+    modes[1] = appends(PATHS, "build_path", "path_mesh", {"mesh.vertices"})
+    modes[2] = appends(TREES[2][0], TREES[2][1], "output", {"self.mesh.vertices"})
+    modes[3] = appends(TREES[3][0], TREES[3][1], "output", {"bary"})
+    modes[4] = appends(TREES[4][0], TREES[4][1], "output", {"bary"})
+    body = ["(* exporters that append to a PolyLine() directly: 0 extract_boundary_of_surface, 1 build_path (shortest_path\n"
+            "   export), 2 / 3 / 4 Edge / Face / CellSpanningTree.build_tree_as_polyline *)",
+            "Definition append_mode (p : Z) : cmode := "
+            + "".join("if (p =? %d)%%Z then %s else " % (k, modes[k]) for k in sorted(modes)) + "Alias."]
+    return body
+
+
 def gen():
     parts = []
     views, p = vec_is_view()
@@ -827,6 +872,8 @@ def gen():
     body += gen_mesh_data(parts, views)
     body.append("(* ---- mesh.py *)")
     body += gen_mesh(parts, views)
+    body.append("(* ---- border.py / paths.py / trees *)")
+    body += gen_appenders(parts, views)
     body.append("(* ---- rings.py *)")
     body += gen_ring(parts, views)
     tf = gen_transform(parts, views)
